@@ -39,7 +39,7 @@ pub const STREAMS: &[(&str, usize, usize)] = &[
     // correspondence for the Lean model of the parser primitives (ops on the real `Parser`)
     ("fuel-ops", 400, 4000),
     // minimised witnesses of defects that were found and fixed (corpus/C04/regress-*.gom) + their template families
-    ("regress", 60, 300),
+    ("regress", 120, 360),
     // infinite types: every way an occurs-check failure can arise × every way two inference variables
     // can have been unified with each other before (enumerated, then random compositions)
     ("occurs", 900, 6000),
@@ -704,6 +704,12 @@ fn build_case(stream: &str, idx: usize, seed: u64, thorough: bool, corpus: &[(St
             let mut files: Vec<PathBuf> = std::fs::read_dir(util::verif_root().join("corpus/C04"))
                 .map(|rd| rd.filter_map(|e| e.ok().map(|e| e.path())).filter(|p| p.file_name().is_some_and(|n| n.to_string_lossy().starts_with("regress-"))).collect())
                 .unwrap_or_default();
+            // + the rejected witnesses of tools/coverage_audit.py (diagnostic paths no other stream reaches)
+            files.extend(
+                std::fs::read_dir(util::verif_root().join("corpus/C03/neg"))
+                    .map(|rd| rd.filter_map(|e| e.ok().map(|e| e.path())).filter(|p| p.extension().is_some_and(|x| x == "gom")).collect::<Vec<_>>())
+                    .unwrap_or_default(),
+            );
             files.sort();
             if idx < files.len() {
                 let name = files[idx].file_name().unwrap().to_string_lossy().to_string();
